@@ -88,6 +88,13 @@ H = [
   "        proto_module.sections.extend(s._to_protobuf() for s in self.sections)\n",
   "        proto_module.sections.extend(s._to_protobuf() for s in self.sections)\n"
   "        proto_module.rebase_delta = self.rebase_delta\n", ["C02"]),
+ ("serialization.py", "class SetCodec", "        for item in items:\n            serialization._encode_tree(out, item, subtype)",
+  "        for elem in items:\n            serialization._encode_tree(out, elem, subtype)", ["C07", "C08"]),
+ ("serialization.py", "Mapping codec only supports Mappings", "        for key, val in mapping.items():\n            serialization._encode_tree(out, key, key_type)\n            serialization._encode_tree(out, val, val_type)",
+  "        for k, v in mapping.items():\n            serialization._encode_tree(out, k, key_type)\n            serialization._encode_tree(out, v, val_type)", ["C08"]),
+ ("cfg.py", "def discard(self, edge", "if key is not None:", "if not (key is None):", ["C11"]),
+ ("util.py", "def _stable_iter", "    if isinstance(values, typing.Iterator):\n        return values\n    return list(values)",
+  "    if not isinstance(values, typing.Iterator):\n        return list(values)\n    return values", ["C16", "C17"]),
 ]
 sel = [int(a) for a in sys.argv[1:]]
 bad = 0
